@@ -483,6 +483,8 @@ class Interp:
             n = self.nremoved[label]
             self.nremoved[label] += 1
             script = self.sc.get('scripts', {}).get(f'rm:{label}:{n}')
+            if not self.in_life:
+                self.pass_eid = repr(rest[1])   # the pass is working on it
             if script:
                 # a cascade: on_remove asks for further (deferred) deletions
                 self.probes['request_in_on_remove'] += 1
@@ -535,7 +537,8 @@ class Interp:
         self.dead.clear()
         self.stale.clear()
         self.nested_frame = {'exp2': exp2, 'dt': dt2,
-                             'cur': repr(getattr(self, 'cur_cb_eid', None)),
+                             'cur': {repr(getattr(self, 'cur_cb_eid', None)),
+                                     getattr(self, 'pass_eid', None)},
                              'procs': [j for q, j in self.procs]}
         self.no_scripts = True
         self.trace.add('frame_from_reaping', repr(dt2))
@@ -568,7 +571,7 @@ class Interp:
             if e[0] == 'proc':
                 nproc += 1
             elif e[0] == 'life' and nproc and (
-                    e[3] != nf['cur'] or nproc > len(nf['procs'])):
+                    e[3] not in nf['cur'] or nproc > len(nf['procs'])):
                 self.fail('C05', 'reaped_late', f'process({dt}) with a frame '
                           f'run by a removal callback: {e[1]} of entity '
                           f'{e[3]} was notified after {nproc} processor '
